@@ -27,18 +27,21 @@ class Hang(Exception):
 
 
 def _alarm(signum, frame):
-    raise Hang()
+    import traceback
+    raise Hang("".join(traceback.format_stack(frame)[-5:]))   # where the call was when the time ran out
 
 
 def guarded(fn, seconds=10):
     """run fn(); a loop that does not end within `seconds` is reported as Hang"""
-    old = _signal.signal(_signal.SIGALRM, _alarm)
-    _signal.alarm(seconds)
+    # measured in CPU time of this process (ITIMER_VIRTUAL), not wall-clock time: on a loaded machine a millisecond call can be
+    # descheduled for seconds, which a wall-clock alarm reported as a hang (seen once in a thorough run under load 40)
+    old = _signal.signal(_signal.SIGVTALRM, _alarm)
+    _signal.setitimer(_signal.ITIMER_VIRTUAL, float(seconds))
     try:
         return fn()
     finally:
-        _signal.alarm(0)
-        _signal.signal(_signal.SIGALRM, old)
+        _signal.setitimer(_signal.ITIMER_VIRTUAL, 0)
+        _signal.signal(_signal.SIGVTALRM, old)
 
 
 def walk(le, start, size):
@@ -243,10 +246,21 @@ def run(chk):
         fr, objs = mk(L, sigs)
         try:
             guarded(fr.compress, 5)
-        except Hang:
-            hangs[0] += 1
-            chk.violation("compress-hangs", "compress did not terminate within 5 s", desc(L, sigs))
-            return
+        except Hang as h:
+            # reported only when a second, fresh frame of the same definition does not finish within a much longer budget either
+            import time as _time
+            state = [(o.start_bit, o.size, o.is_little_endian) for o in objs]
+            fr2, objs2 = mk(L, sigs)
+            t0 = _time.process_time()
+            try:
+                guarded(fr2.compress, 60)
+                chk.count("compress-slow-first-try(retry finished in %.1fs cpu)" % (_time.process_time() - t0))
+                fr, objs = fr2, objs2
+            except Hang as h2:
+                hangs[0] += 1
+                chk.violation("compress-hangs", "compress did not terminate within 60 s of CPU time (second attempt on a fresh frame)",
+                              desc(L, sigs), None, dict(where=str(h2)[-1200:], positions_when_first_attempt_stopped=state))
+                return
         add(1606, [[L]] + groups(sigs), [[1], [o.start_bit for o in objs]], dict(op="compress", **desc(L, sigs)))
         if not envelope:
             return
